@@ -307,3 +307,38 @@ func (m *Machine) strContainsLit(v value, sub string) (*Term, bool) {
 	}
 	return res, true
 }
+
+// strLen returns the length of a string: exact when every part has a known
+// length, otherwise known parts plus one bounded fresh variable per opaque
+// rendering (a rendering is never empty).
+func (m *Machine) strLen(s *SymStr) *Term {
+	st := m.st()
+	n := 0
+	var sym *Term
+	for _, p := range s.parts {
+		if p.n >= 0 {
+			n += p.n
+			continue
+		}
+		name := "strlen(" + p.kind
+		for _, a := range p.args {
+			name += "," + a.key()
+		}
+		name += ")"
+		v := st.Var(name, KBV, 64)
+		if m.spec == 0 {
+			m.addPC(st.And(st.ULe(BV(1, 64), v), st.ULe(v, BV(400, 64))))
+		} else if _, known := m.pcKnow[st.And(st.ULe(BV(1, 64), v), st.ULe(v, BV(400, 64)))]; !known {
+			panic(specAbort{"string length"})
+		}
+		if sym == nil {
+			sym = v
+		} else {
+			sym = st.Add(sym, v)
+		}
+	}
+	if sym == nil {
+		return BV(uint64(n), 64)
+	}
+	return st.Add(sym, BV(uint64(n), 64))
+}
